@@ -7,11 +7,10 @@ import UtilModel.Core.Count
 namespace UtilModel.Keyed
 open UtilModel
 
-theorem kinv_congr {s s' : St} (hk : s'.keys = s.keys) (hg : s'.gens = s.gens) (h : KInv s)
-    (hn : s'.nilNext = s.nilNext := by rfl) : KInv s' := by
+theorem kinv_congr {s s' : St} (hk : s'.keys = s.keys) (hg : s'.gens = s.gens) (h : KInv s) : KInv s' := by
   have hkey : ∀ k, s'.key k = s.key k := fun k => by simp [St.key, hk]
   refine ⟨fun g y hy => h.chain g y (by rw [← hg]; exact hy), ?_, ?_, ?_,
-    fun k r hk' => h.fn k r (by rw [← hkey]; exact hk'), hn.trans h.nn⟩
+    fun k r hk' => h.exFn k r (by rw [← hkey]; exact hk')⟩
   · intro k r hk'; rw [hkey] at hk'; rw [hg]; exact h.genKey k r hk'
   · intro k r i y hk' hc he hy; rw [hkey] at hk'; rw [hg] at hy; exact h.curLast k r i y hk' hc he hy
   · intro k r i y hk' hc he hy; rw [hkey] at hk'; rw [hg] at hy; exact h.curExited k r i y hk' hc he hy
@@ -35,13 +34,12 @@ theorem kinv_createKey (s : St) (k : Nat) (h : KInv s) (hn : s.key k = none) : K
     · exact Or.inr ⟨h1, h2⟩
   have hold : ∀ k' r, k' ≠ k → (createKey s k).key k' = some r → s.key k' = some r := by
     intro k' r hk' hr; rw [key_createKey] at hr; simpa [hk'] using hr
-  have hnn : (createKey s k).nilNext = [] := by simp [createKey, newRec, h.nn]
-  refine ⟨?_, ?_, ?_, ?_, ?_, hnn⟩
+  refine ⟨?_, ?_, ?_, ?_, ?_⟩
   rotate_left 4
-  · intro k' r hr
+  · intro k' r hr hce
     by_cases hkk : k' = k
-    · subst hkk; rw [key_createKey] at hr; simp at hr; subst hr; simp [h.nn]
-    · exact h.fn k' r (hold k' r hkk hr)
+    · subst hkk; rw [key_createKey] at hr; simp at hr; subst hr; simp at hce
+    · exact h.exFn k' r (hold k' r hkk hr) hce
   · intro g y hy
     rcases hget g y hy with h1 | ⟨_, h2⟩
     · exact h.chain g y h1
@@ -75,13 +73,12 @@ theorem kinv_newRec (s : St) (k : Nat) (r : Rec) (h : KInv s) (hk : s.key k = so
     KInv (newRec s k r.gen) := by
   have hold : ∀ k' r', k' ≠ k → (newRec s k r.gen).key k' = some r' → s.key k' = some r' := by
     intro k' r' hk' hr; rw [key_newRec] at hr; simpa [hk'] using hr
-  have hnn : (newRec s k r.gen).nilNext = [] := by simp [newRec, h.nn]
-  refine ⟨h.chain, ?_, ?_, ?_, ?_, hnn⟩
+  refine ⟨h.chain, ?_, ?_, ?_, ?_⟩
   rotate_left 3
-  · intro k' r' hr
+  · intro k' r' hr hce
     by_cases hkk : k' = k
-    · subst hkk; rw [key_newRec] at hr; simp at hr; subst hr; simp [h.nn]
-    · exact h.fn k' r' (hold k' r' hkk hr)
+    · subst hkk; rw [key_newRec] at hr; simp at hr; subst hr; simp at hce
+    · exact h.exFn k' r' (hold k' r' hkk hr) hce
   · intro k' r' hr
     by_cases hkk : k' = k
     · subst hkk; rw [key_newRec] at hr; simp at hr; subst hr
@@ -140,7 +137,7 @@ theorem kinv_setCtxOne (same restart : Bool) (s : St) (k : Nat) (h : KInv s) : K
     split
     · exact h
     · have h1 : KInv (setRec (cancelOpt s r.gen r.cancelOf) k (some { r with cur := none, cancelOf := none })) :=
-        kinv_setRec _ k r _ (kinv_cancelOpt s r.gen r.cancelOf h) (by simpa using hk) rfl (Or.inl rfl)
+        kinv_setRec _ k r _ (kinv_cancelOpt s r.gen r.cancelOf h) (by simpa using hk) rfl (Or.inl ⟨rfl, rfl⟩)
       split
       · exact kinv_startKey _ k false h1
       · exact h1
@@ -151,10 +148,6 @@ theorem kinv_resetKey (s : St) (k : Nat) (h : KInv s) : KInv (resetKey s k).1 :=
   | none => exact h
   | some r =>
     simp only []
-    have hno : resetTail s (startKey (newRec (cancelOpt s r.gen r.cancelOf) k r.gen) k false) k r.gen =
-        startKey (newRec (cancelOpt s r.gen r.cancelOf) k r.gen) k false := by
-      simp [resetTail, h.nn]
-    rw [hno]
     exact kinv_startKey _ k false
       (kinv_newRec _ k r (kinv_cancelOpt s r.gen r.cancelOf h) (by simpa using hk))
 
